@@ -33,8 +33,14 @@ pub fn generate(kind: &str, seed: u64, run: u64, _thorough: bool) -> Scenario {
         let mut y = gen::gen_rule(&mut rr, &knobs);
         let docs = gen::docs_for(&mut dr, &y, &knobs, 3);
         if let Some(m) = y.as_mapping_mut() {
-            m.insert("true_positives".into(), Yaml::Sequence(docs.iter().take(1).map(|d| d.to_yaml()).collect()));
-            m.insert("true_negatives".into(), Yaml::Sequence(docs.iter().skip(1).map(|d| d.to_yaml()).collect()));
+            let (ntp, ntn) = match rr.below(6) {
+                0 => (0, 0),
+                1 => (0, 2),
+                2 => (1, 0),
+                _ => (1, 2),
+            };
+            m.insert("true_positives".into(), Yaml::Sequence(docs.iter().take(ntp).map(|d| d.to_yaml()).collect()));
+            m.insert("true_negatives".into(), Yaml::Sequence(docs.iter().skip(1).take(ntn).map(|d| d.to_yaml()).collect()));
         }
         let mut text = gen::rule_text(&y);
         // YAML features the two loaders must treat alike: merge keys and anchors/aliases
@@ -55,6 +61,19 @@ pub fn generate(kind: &str, seed: u64, run: u64, _thorough: bool) -> Scenario {
             if serde_yaml::from_str::<Yaml>(&text).is_err() {
                 text = gen::rule_text(&y);
             }
+        }
+        // hand-written looking text: the same YAML value spelled differently
+        let variant = match rr.below(10) {
+            0 => text.replace("\\t", "\t"),
+            1 => text.replace('\n', "\r\n"),
+            2 => format!("---\n{}", text),
+            3 => format!("{}...\n", text),
+            4 => format!("# a comment\n{}\n# trailing comment\n", text),
+            5 => format!("\u{feff}{}", text),
+            _ => text.clone(),
+        };
+        if serde_yaml::from_str::<Yaml>(&variant).ok() == serde_yaml::from_str::<Yaml>(&text).ok() {
+            text = variant;
         }
         let y2 = serde_yaml::from_str(&text).unwrap_or(y);
         (text, "generated".to_owned(), y2)
